@@ -808,6 +808,21 @@ func (g *gen) elabCall(x *Expr, e *env) (Val, error) {
 		}
 		es := g.ctx.sortOf(a.GoT.Underlying().(*types.Slice).Elem())
 		return Val{T: "(select " + g.stGet(e.st, g.ctx.elemComp(es)) + " (s.ref " + a.T + "))", S: "(Array Int " + es + ")"}, nil
+	case "deref":
+		as, err := args()
+		if err != nil {
+			return Val{}, err
+		}
+		a := as[0]
+		if a.GoT == nil {
+			return Val{}, fmt.Errorf("deref of a value without Go type")
+		}
+		pt, ok := a.GoT.Underlying().(*types.Pointer)
+		if !ok {
+			return Val{}, fmt.Errorf("deref of non-pointer %s", a.GoT)
+		}
+		loc := g.derefLocQuiet(g.redirect(a), pt)
+		return Val{T: g.loadLoc(e.st, loc), S: loc.Sort, GoT: loc.GoT}, nil
 	case "sqlstarts":
 		// sqlstarts(q, "DELETE FROM t"): decided at elaboration time from the text q was built from — a string
 		// literal, or the literal head (up to the first %) of a constant fmt.Sprintf format. Whitespace is
